@@ -89,5 +89,11 @@ CHECKS = {
   text="13 leaf kinds (paragraphs, heading, code, target, lists, quote, unknown directive / role / option warnings, body on the argument line) are wrapped in every chain of <= 2 (3) wrappers out of block quote, bullet/ordered item, ::: div, include (with and without :start-line:) and 80 directive layouts (backtick/colon x no/one/two/--- option blocks, blank line after the options and before the closing fence, argument or not); every leaf node, every enclosing list/item/quote/directive node and every warning must carry the 1-based line the generator wrote it on, and the path of the file it came from.",
   note="Trusted: the generator's bookkeeping and its grammar constraints (no option-looking first body line unless intended). Two suite-pinned deviations are known findings (included files +1; body on the argument line +1), matched only when the delta is exactly explained by them.",
  ),
+ "C02": dict(
+  category="model_checking",
+  technique="bounded exhaustive enumeration of inline sequences, block sequences and container nestings under 4 parser modes, executed on the real DocutilsRenderer and the in-process Sphinx front end; markdown-it-py's own token tree (RendererHTML parser) as reference model, compared as structural skeletons",
+  text="Every sequence of <= 2 (3) of 23 inline constructs in 6 contexts, every ordered pair (thorough: also triples) of 60+ block constructs plain and inside quote / list items, and every container chain of depth <= 2 (3) around every block are parsed twice: into markdown-it's token tree and into a doctree. Both are reduced to a skeleton (paragraph, list+style+start, item, quote, em, strong, link+destination+title, table rows/cells+alignment, heading, dl, field list; text, inline code, code block+language, raw HTML, math, image+uri+alt+title, thematic break, hard break) and must be equal in strict CommonMark, MyST, MyST+all static extensions and gfm mode; the Sphinx doctree of the same documents must reduce to the docutils skeleton.",
+  note="Trusted: markdown-it-py 3.0.0 token tree (and its renderInlineAsText for image alt); skeleton masks stated in ASSUMPTIONS; directives/roles/front matter are outside the compared leaves; linkify unavailable.",
+ ),
 }
 NOT_APPLICABLE = {}
